@@ -5,6 +5,8 @@ import (
 	"os"
 	"strings"
 
+	"github.com/youchainhq/go-youchain/core"
+
 	"verifharness/cmd/c07/chainkit"
 	"verifharness/internal/quiet"
 	"verifharness/internal/vh"
@@ -13,6 +15,14 @@ import (
 const rule = "case = one chain (scenario) of blocks built by the worker-equivalent builder, imported by InsertChain into two independent databases and re-executed K times on fresh StateDBs; non-trivial when the chain crosses >= 1 staking-period end and contains >= 1 staking transaction that was included and >= 1 transaction that failed or was refused; fork scenarios are non-trivial when the builder confirmed >= 1 evidence; distinct by scenario text"
 
 func main() {
+	if len(os.Args) >= 3 && (os.Args[1] == "reexec" || os.Args[1] == "reexec-plain") {
+		childMain(os.Args[2:], os.Args[1] == "reexec-plain")
+		return
+	}
+	if len(os.Args) == 3 && os.Args[1] == "debug-k5" {
+		debugK5(os.Args[2])
+		return
+	}
 	if len(os.Args) == 3 && os.Args[1] == "debug-staking" {
 		debugStaking(os.Args[2])
 		return
@@ -139,8 +149,24 @@ func run(c *vh.Ctx) error {
 		}
 	}
 
+	// ---- core.GenerateChain path (no staking module) ------------------------------------------------------------------
+	for i, nG := 0, c.N(6, 40); i < nG; i++ {
+		line := fmt.Sprintf("G blocks=%d seed=%d", c.R.Range(3, 12), c.R.Intn(1000000))
+		f, what, nb, ntx, err := runGenChain(line)
+		if err != nil {
+			return fmt.Errorf("scenario %q: %v", line, err)
+		}
+		res.Count(line, ntx > 0)
+		res.DistN("GenerateChain-blocks", nb)
+		res.DistN("GenerateChain-txs", ntx)
+		if f {
+			rp := vh.WriteReplay(c.ReplayDir, "C06", fmt.Sprintf("genchain-%d", i), c.Seed, []string{"oracle: " + what}, []string{line})
+			res.Fail("oracle", "", what, rp)
+		}
+	}
+
 	// ---- generated chains ---------------------------------------------------------------------------------------------
-	nChains := c.N(50, 150)
+	nChains := c.N(45, 140)
 	blocksPer := c.N(70, 160)
 	if c.Search {
 		nChains *= 2
@@ -170,7 +196,12 @@ func run(c *vh.Ctx) error {
 				s.close()
 				return err
 			}
-			bl := prof.genBlock(r, s.w, st)
+			var bl []string
+			if r.Chance(prof.wkRate) {
+				bl = prof.genWorkerBlock(r, s.w, st, core.CalcGasLimit(s.w.kit.A.BC.CurrentBlock()))
+			} else {
+				bl = prof.genBlock(r, s.w, st)
+			}
 			scenario = append(scenario, bl...)
 			if err := s.runBlock(bl); err != nil {
 				s.close()
@@ -198,8 +229,13 @@ func run(c *vh.Ctx) error {
 				}
 			}
 		}
+		if err := s.finishChain(); err != nil {
+			s.close()
+			return err
+		}
 		rr := s.rr
 		s.close()
+		res.DistN("blocks-re-executed-in-a-fresh-child-process", rr.childBlocks)
 		periodEnds, stakingTx, failedOrRefused, evid, slashed, forged := 0, 0, 0, 0, 0, 0
 		for _, b := range rr.blocks {
 			if b.block == nil {
@@ -225,6 +261,15 @@ func run(c *vh.Ctx) error {
 			res.DistN("evidence-offered", b.nEv)
 			res.DistN("evidence-confirmed-into-SlashData", b.nSlashed)
 			res.DistN("end-block-logs", b.endLogs)
+			if b.worker {
+				res.Dist("worker-loop-blocks")
+				for k, v := range b.workerStats {
+					res.DistN("worker-loop "+k, v)
+				}
+				if b.gasLimit > 0 {
+					res.Dist(fmt.Sprintf("worker-loop candidate gas / gas limit = %dx..", b.candGas/b.gasLimit))
+				}
+			}
 			if len(b.block.Transactions()) >= 16 {
 				res.Dist("block-with->=16-txs")
 			}
@@ -281,6 +326,13 @@ func replay(c *vh.Ctx, body, comments []string) (bool, string) {
 	}
 	if strings.HasPrefix(body[0], "L ") {
 		return replayLean(c, body)
+	}
+	if strings.HasPrefix(body[0], "G ") {
+		f, what, _, _, err := runGenChain(body[0])
+		if err != nil {
+			return false, "ill-formed G scenario: " + err.Error()
+		}
+		return f, what
 	}
 	f, what, _ := oracleOnScenario(body, 12) // enough repetitions to hit an order-dependent outcome with near certainty
 	return f, what
